@@ -613,7 +613,22 @@ func (td *typeDecls) declare(name string, o *VOpaque, depth int) {
 		if strings.Contains(res, ",") {
 			res = "(" + res + ")"
 		}
-		emit(fmt.Sprintf("func(%s) %s", tuple("Params", false), res))
+		params := tuple("Params", false)
+		if vb, ok := u.attrs["#variadic"].(VBool); ok && vb.Known && vb.V {
+			// the last parameter is ...Elem
+			if pt, ok := u.attrs["Params"].(*VOpaque); ok {
+				if el, ok := pt.attrs["#elems"].(*VList); ok && len(el.Elems) > 0 {
+					if lo, ok := el.Elems[len(el.Elems)-1].(*VOpaque); ok {
+						if lt, ok := lo.attrs["Type"]; ok {
+							parts := strings.Split(params, ", ")
+							parts[len(parts)-1] = "..." + td.compOf(lt, "Elem")
+							params = strings.Join(parts, ", ")
+						}
+					}
+				}
+			}
+		}
+		emit(fmt.Sprintf("func(%s) %s", params, res))
 	case "*types.Basic":
 		b := td.basicName(u)
 		if b == "" {
